@@ -38,7 +38,13 @@ TinyPairs == {Program(d, e, r, TRUE, <<x, y>>) : d \in Dirs, e \in {"Binary", "J
 \* a VALUE type whose Marshal* methods have pointer receivers does not implement the marshaler
 \* interface: recv "ptrmeth" (marshal direction only), so the specification sees iface = FALSE
 PtrMeth == {Program("marshal", e, "ptrmeth", FALSE, <<x>>) : e \in Encs, x \in Small}
-Other == {Program(d, e, r, FALSE, <<x>>) : d \in Dirs, e \in Encs, r \in Recvs, x \in Small} \cup TinyPairs \cup PtrMeth
+\* T is an interface type and the values are implementations of it (two of them, alternating, in
+\* the marshal direction): the helpers must go by the dynamic type of each value, so the verdict is
+\* that of an implementing type - also for the empty list, where there is no value to look at
+IfaceT == {Program(d, e, "ifacetype", TRUE, <<x>>) : d \in Dirs, e \in Encs, x \in Small}
+          \cup {Program(d, e, "ifacetype", TRUE, <<x, y>>) : d \in Dirs, e \in Encs, x \in Tiny, y \in Tiny}
+          \cup {Program(d, e, "ifacetype", TRUE, <<>>) : d \in Dirs, e \in Encs}
+Other == IfaceT \cup {Program(d, e, r, FALSE, <<x>>) : d \in Dirs, e \in Encs, r \in Recvs, x \in Small} \cup TinyPairs \cup PtrMeth
          \cup {Program(d, e, r, i, <<>>) : d \in Dirs, e \in Encs, r \in Recvs, i \in BOOLEAN}
          \cup {Program(d, e, "value", TRUE, <<x, y, z>>) : d \in Dirs, e \in {"Text"},
                  x \in {Case("marshal", "nil", "nil", "error", "none"), Case("unmarshal", "nil", "nil", "error", "none")},
